@@ -1281,10 +1281,12 @@ class ValueObject(Value):
         if self.hasItem(key):
             return self.getItem(key)
         current = self
+        seen = {id(self)}
         while current.hasItem("_proto_"):
             current = current.getItem("_proto_")
-            if not current or not current.isObject():
+            if not current or not current.isObject() or id(current) in seen:
                 break
+            seen.add(id(current))
             if current.hasItem(key):
                 return current.getItem(key)
         return None
